@@ -18,7 +18,10 @@ temps = st.sampled_from([0.1, 0.5, 1.0, 3.0, 10.0])
 def history(method):
     opts = {'pit': [st.tuples(st.just('discrete'), st.booleans())],
             'mps': [st.tuples(st.just('temperature'), temps), st.tuples(st.just('hard'), st.booleans()),
-                    st.tuples(st.just('gumbel'), st.booleans())],
+                    st.tuples(st.just('gumbel'), st.booleans()),
+                    # fine-tuning mode: the coefficients saved by the last sampling are used
+                    st.tuples(st.just('disable_sampling'), st.booleans()),
+                    st.tuples(st.just('disable_sampling'), st.just(True))],
             'supernet': [st.tuples(st.just('temperature'), temps),
                          st.tuples(st.just('hard'), st.booleans())]}[method]
     op = st.one_of(st.tuples(st.just('step'), st.sampled_from(['sgd', 'sgd', 'adam'])),
@@ -43,6 +46,10 @@ def cases(draw, method):
     # the observation passes run with autograd on (a training loop) or off (validation)
     base['obs_grad'] = draw(st.booleans())
     return base
+
+
+def _reraise(e):
+    raise e
 
 
 def apply_option(method, m, name, val):
@@ -131,7 +138,17 @@ def oracle(case) -> Result:
             if not loss.requires_grad:
                 continue              # only frozen (detached) masks are 'trainable' in this phase
             o.zero_grad()
-            r = must(res, 'backward', loss.backward)
+            try:
+                loss.backward()
+            except RuntimeError as e:
+                if opts.get('disable_sampling') and 'second time' in str(e):
+                    # sampling disabled: the selectors keep the coefficient tensor of the last
+                    # sampled forward, whose graph an earlier backward() freed (see C11) - no
+                    # step is taken, the history goes on
+                    res.ev('stale-coefficient-graph-while-sampling-disabled')
+                    continue
+                must(res, 'backward', _reraise, e)
+                return res
             o.step()
             steps += 1
         elif op == 'opt':
@@ -216,7 +233,7 @@ CHECK = Check(
     rule=("Generated PIT / MPS (per-layer and per-channel) / SuperNet models with drawn masks / "
           "coefficients; history = 0..7 of {optimizer step (SGD or Adam on all trainable network "
           "and architectural parameters, lr in {0.01,0.05,0.2}, random data), option change "
-          "(discrete_cost / temperature / hard / gumbel), train() / eval(), train_net_only / "
+          "(discrete_cost / temperature / hard / gumbel / disable_sampling), train() / eval(), train_net_only / "
           "train_nas_only / train_net_and_nas (on the original only: trainability is run-time "
           "state, not an observable)}; then torch.save -> "
           "torch.load of the state_dict, a fresh wrapper built from the pristine seed with the same "
